@@ -495,7 +495,8 @@ pub(crate) struct DrawState {
     pub(crate) move_cursor: bool,
     /// Controls how the multi progress is aligned if some of its progress bars get removed, default is `Top`
     pub(crate) alignment: MultiProgressAlignment,
-    /// True if the previous draw left the cursor at the right edge of its last bar line
+    /// True if the previous draw left the cursor on the last line it wrote (not on a fresh line
+    /// below it)
     cursor_at_line_end: bool,
 }
 
@@ -525,6 +526,7 @@ impl DrawState {
                 // cursor still sits at the end of the last of them, so move to a fresh line
                 // instead of relying on the first new line to wrap.
                 term.write_line("")?;
+                self.cursor_at_line_end = false;
             }
             if n > 0 && !self.cursor_at_line_end {
                 // The cursor is not at the end of the last line to clear but on a fresh line
@@ -539,6 +541,9 @@ impl DrawState {
                 }
             }
             term.move_cursor_up(n.saturating_sub(1))?;
+            if n > 0 {
+                self.cursor_at_line_end = false;
+            }
         }
 
         let term_width = term.width() as usize;
@@ -587,6 +592,7 @@ impl DrawState {
             }
 
             term.write_str(line.as_ref())?;
+            self.cursor_at_line_end = true;
 
             if idx + 1 == self.lines.len() {
                 if matches!(line, LineType::Bar(_)) {
@@ -600,18 +606,17 @@ impl DrawState {
                     // erases, so finish it with a newline. Leaving the cursor at the right
                     // edge would make a following empty line share the row of this text.
                     term.write_line("")?;
+                    self.cursor_at_line_end = false;
                 }
             }
         }
 
         for _ in 0..blank_lines {
             term.write_line("")?;
+            self.cursor_at_line_end = false;
         }
 
         term.flush()?;
-        if !self.lines.is_empty() || bar_count.as_usize() > 0 {
-            self.cursor_at_line_end = matches!(self.lines.last(), Some(LineType::Bar(_)));
-        }
         *bar_count = real_height + shift;
 
         Ok(())
